@@ -214,6 +214,9 @@ static const char *vin = "abX"; static int vpos, vreq;
         return None if rc != 0 and "jammed" in err else "unmatched input did not stop the scanner with 'flex scanner jammed' (rc=%s, %r)" % (rc, err[-80:])
     add("nodefault", [(["-s"], []), (["--nodefault"], []), ([], ["nodefault"])], p_nodefault, body="a return 1;\n", sect3=MAIN_NR)
 
+    CXXND = "#include <iostream>\nint main(){ yyFlexLexer l; while (l.yylex() > 0) ; return 0; }\n"
+    add("nodefault-c++", [(["-+", "-s"], []), ([], ["c++ nodefault"])], p_nodefault, body="a return 1;\n", sect3=CXXND, cxx=True, outname="lex.yy.cc")
+
     def p_default(P):
         e = gen_ok(P)
         if e:
